@@ -15,9 +15,9 @@ fn cfg_for(id: &str, quick: bool) -> (Cfg, u8) {
     .into_iter()
     .collect();
     match id {
-        "C32" => (Cfg { max_tokens: if quick { 2 } else { 3 }, api: true, reauth: false, validity: true, changepw: false, ticks: vec![1, GRACE + 1, SESSION + 1], props }, if quick { 3 } else { 6 }),
-        "C33" => (Cfg { max_tokens: if quick { 3 } else { 4 }, api: true, reauth: true, validity: false, changepw: false, ticks: vec![1, PRIV + 1, SESSION + 1], props }, if quick { 3 } else { 6 }),
-        _ => (Cfg { max_tokens: if quick { 2 } else { 3 }, api: false, reauth: true, validity: false, changepw: true, ticks: vec![1, GRACE + 1], props }, if quick { 4 } else { 6 }),
+        "C32" => (Cfg { max_tokens: if quick { 2 } else { 3 }, api: true, reauth: false, validity: true, changepw: false, lifecycle: true, ticks: vec![1, GRACE + 1, SESSION + 1], props }, if quick { 3 } else { 6 }),
+        "C33" => (Cfg { max_tokens: if quick { 3 } else { 4 }, api: true, reauth: true, validity: false, changepw: false, lifecycle: false, ticks: vec![1, PRIV + 1, SESSION + 1], props }, if quick { 3 } else { 6 }),
+        _ => (Cfg { max_tokens: if quick { 2 } else { 3 }, api: false, reauth: true, validity: false, changepw: true, lifecycle: false, ticks: vec![1, GRACE + 1], props }, if quick { 4 } else { 6 }),
     }
 }
 
